@@ -129,6 +129,10 @@ static void part_b(Ctx& ctx, uint64_t N, const CpuCfg& cfg, bool thorough) {
   MODULE* mod = get_module(N, FFT64, cfg);
   ExecResult r;
   std::vector<uint64_t> ks = {1, 2, 13, 31, 52, 61, 62};
+  const bool sparse = N >= 4096;  // large-N layer: a thinner shape box (every variant, aliasing and data set still occurs)
+  if (sparse) ks = {1, 19, 62};
+  std::vector<uint64_t> RS = {0, 1, 2, 3, 4}, AS = {0, 1, 2, 3, 4}, SL = {N, N + 1, 2 * N + 3};
+  if (sparse) { RS = {1, 3}; AS = {0, 2, 4}; SL = {N, N + 1}; }
   auto run = [&](const NormShape& s) {
     ApiCase c = gen_normalize(mod, s, cfg.name);
     if (!ctx.want(c.id)) return;
@@ -140,15 +144,15 @@ static void part_b(Ctx& ctx, uint64_t N, const CpuCfg& cfg, bool thorough) {
     ctx.end_case(c.nontrivial);
   };
   for (uint64_t k : ks)
-    for (uint64_t rs = 0; rs <= 4; ++rs)
+    for (uint64_t rs : RS)
       for (int ds = 0; ds < 3; ++ds) {  // 62-bit probes, digit-boundary values, structured limbs (all zero / multiples of 2^32 / probes)
-        for (uint64_t as = 0; as <= 4; ++as) {
-          for (uint64_t rsl : {N, N + 1, 2 * N + 3}) for (uint64_t asl : {N, N + 1, 2 * N + 3}) {
+        for (uint64_t as : AS) {
+          for (uint64_t rsl : SL) for (uint64_t asl : SL) {
             NormShape s; s.N = N; s.k = k; s.rs = rs; s.as = as; s.rsl = rsl; s.asl = asl; s.variant = 0; s.dataset = ds;
             run(s);
             if (rsl == asl) { s.alias = 1; run(s); }
           }
-          for (uint64_t rsl : {N, N + 1, 2 * N + 3}) {
+          for (uint64_t rsl : SL) {
             NormShape s; s.N = N; s.k = k; s.rs = rs; s.as = as; s.rsl = rsl; s.variant = 1; s.dataset = ds;
             run(s);
             if (rsl == N) { s.alias = 1; run(s); }
@@ -158,6 +162,7 @@ static void part_b(Ctx& ctx, uint64_t N, const CpuCfg& cfg, bool thorough) {
         std::vector<std::vector<uint64_t>> RG;
         for (uint64_t end = 0; end <= 5; ++end) for (uint64_t begin = 0; begin <= end; ++begin) for (uint64_t step = 1; step <= 3; ++step) RG.push_back({begin, end, step});
         for (uint64_t end : {8, 13, 40}) for (uint64_t begin : {0, 1, 5}) for (uint64_t step : {1, 2, 3, 7}) RG.push_back({begin, end, step});
+        if (sparse) RG = {{0, 3, 1}, {1, 5, 2}, {0, 8, 3}, {0, 2, 1}};
         for (auto& rg : RG) for (uint64_t rsl : {N, N + 1}) {
             const uint64_t begin = rg[0], end = rg[1], step = rg[2];
             NormShape s; s.N = N; s.k = k; s.rs = rs; s.rsl = rsl; s.variant = 2; s.begin = begin; s.end = end; s.step = step; s.dataset = ds;
@@ -271,6 +276,7 @@ int main(int argc, char** argv) {
   std::vector<uint64_t> Ns = {2, 4, 8, 16, 32, 64};
   if (th) Ns.push_back(1024);
   for (uint64_t N : Ns) for (auto& c : cfgs(th)) items.push_back({1, 0, N, c});
+  for (uint64_t N : {16384, 4096}) items.insert(items.begin(), {1, 0, N, CFG_NATIVE});  // sparse large-N layer (a blocked / vectorised variant keyed to a size threshold is still met)
   for (unsigned k = 1; k <= 62; ++k) items.push_back({2, k, 0, CFG_NATIVE});
   for (unsigned k = 1; k <= 62; ++k) items.push_back({3, k, 0, CFG_NATIVE});
   ctx.parallel(items.size(), [&](uint64_t i) {
